@@ -213,6 +213,8 @@ pub fn load_corpus() -> Corpus {
         pre.extend(literals);
         literals = pre;
     }
+    // deterministic clause-order enumeration (see gen_sql.rs)
+    literals.extend(crate::gen_sql::enumerate());
     let mut seen = BTreeSet::new();
     literals.retain(|s| seen.insert(s.clone()));
     let ds = all_dialects();
